@@ -728,7 +728,11 @@ def book(ctx, case, obs, avail=None):
                 problems.append(("C14:hash_file:unknown-name-digest", f"unlisted name {case['name']!r} produced a digest "
                                  "that is not the reference digest"))
     for sig, what in problems:
-        ctx.oracle_fail(sig, what, shrink(ctx, case, sig))
+        small = shrink(ctx, case, sig)
+        if small != strip(case):  # describe the case that is stored, not the one it was shrunk from
+            runner = run_reads if small["kind"] == "reads" else run_drive
+            what = next((w for s2, w in judge(small, runner(small)) if s2 == sig), what)
+        ctx.oracle_fail(sig, what, small)
     return problems
 
 
